@@ -463,6 +463,26 @@ def crossing_facts(ctx, R="C07.crossing"):
                        "self.crossing_weights": "[block.crossing_weight(_b0) for _b0 in block.crossings]"}, R, en, "enumerator geometry",
               "the enumerator's per-crossing sizes / preambles / weights are the block's", "enumerator geometry is %s" % vals)
 
+    # ---- F5: which combinations belong to the crossing -- the exclusion predicate every side filters with
+    ex = ctx.fn("block:Block.is_excluded_combination")
+    got = Facts(ex).cases()
+    S_ = "any([((_b0[0] in di) and (_b0[1] == di[_b0[0]])) for _b0 in self.exclude])"
+    D_ = "any([all([(_b0[_b1] == di.get(_b1, None)) for _b1 in _b0]) for _b0 in self.excluded_derived])"
+    want = [((S_,), "True"), ((D_, "not(%s)" % S_), "True"), (("not(%s)" % S_, "not(%s)" % D_), "False")]
+    ctx.check(same_cases(got, want), R, ex, "F5 excluded combination",
+              "F5: a combination is excluded iff it holds an excluded simple level, or matches an excluded derived level's combination on every one of that combination's factors",
+              "is_excluded_combination decides differently: a combination that only partly overlaps an excluded basic combination (or lacks one of its factors) must not count as excluded -- found %s" % got)
+    ei = ctx.fn("block:Block.is_excluded_or_inconsistent_combination")
+    got = Facts(ei).cases()
+    X_ = "self.is_excluded_combination(di)"
+    want = [((X_,), "True"),
+            (("([] != self.crossings)", "(f in di)", "all([(_b0 in di) for _b0 in di[f].window.factors])", "isinstance(f, DerivedFactor)",
+              "not(di[f].window.predicate(*[di[_b0].name for _b0 in di[f].window.factors]))", "not(f.has_complex_window)", "not(%s)" % X_), "True"),
+            (("([] != self.crossings)", "not(%s)" % X_), "False"), (("([] == self.crossings)", "not(%s)" % X_), "False")]
+    ctx.check(same_cases(got, want) and Facts(ei).iters() == ["self.crossings[0]"], R, ei, "F5 inconsistent combination",
+              "F5: beyond exclusion, a combination is dropped iff a simple-window derived factor of the first crossing has all its sources in the combination and its predicate fails",
+              "is_excluded_or_inconsistent_combination decides differently: %s over %s" % (got, Facts(ei).iters()))
+
     # ---- the shared counter
     body = ast.unparse(cm.node)
     t = [s for s in rc.stmts if isinstance(s, ast.Assign) and dotted(s.targets[0]) == "delta"]
